@@ -14,6 +14,18 @@ model itself is unit-checked against the real `Generator` module at harness cons
 Units (read off bist.py): `base`, `end`, `length` are BYTE quantities (`awidth = address_width + ashift`), the port is addressed
 in words: first word = base[ashift:], number of words = length[ashift:].  The property's range [base, end) is therefore
 [base/bpw, end/bpw) in port words.
+
+Which address belongs to a position: the generator's write #p is compared with the model (range check first, then the exact model
+address); the address it actually used is recorded and is "the word stored for position p" in the checker's oracle, so that one
+address defect on the generator side is reported once and does not cascade into every error count.  Reports carry stable `detail`
+fields: kind = write_outside_range | read_outside_range | write_address_sequence | write_data | write_byte_enables | extra_write |
+done_before_written | write_after_done | checker_before_start | error_count (+ direction, faithful_memory, repeated_addresses) |
+generator_never_done | checker_never_done, plus data_width / random_addr / random_data / wraps.  For the two *_outside_range kinds
+`explained_by_byte_mask` says whether the observed address is exactly what a mask of (end - base - 1) in BYTES applied to the WORD
+index gives (the one deviation bist.py shows on ports wider than a byte).
+
+Not covered: run_cascade_in low, `reset`, restarting a core, base/length that are not word multiples, length 0, ranges that are not
+powers of two (outside the stated contract).
 """
 import time
 from engine import runner, fhdl
@@ -37,7 +49,7 @@ RULE = ("BFS from a neutral state; first choice = parameter tuple (base in {0, a
         "generator: exactly length/bytes_per_word writes, write #p to the model address of position p inside [base,end), model data of p replicated/truncated to the port width, all byte enables, then done; "
         "checker: reads inside [base,end), done, errors == #positions p with memory[address written for p] != model word of p over the final memory image "
         "(=> 0 for faithful memory and non-repeating addresses, k for k corrupted distinct words); both phases terminate under a cooperative memory. "
-        "non-trivial case = a distinct (parameter tuple, fault set) pair carried to the checker's verdict")
+        "evaluations = transitions; non-trivial case = a distinct (configuration, parameter tuple, fault set) triple carried to the checker's verdict (counted as a set, per configuration)")
 
 EV_OUT = 1; EV_PROG = 2
 AW = 7                      # port address width (words): base 8 + byte-masked offset 63 still fits, no aliasing
@@ -106,7 +118,10 @@ def model_selftest(cycles=400):
 # ---------------------------------------------------------------------------------------------------------------------- harness
 
 class BistHarness(Harness):
-    def __init__(self, dw=8, cfgs=(), D=0, faults="all", wmin=3, rmin=6, qmax=3, flipmode="spread", port="native"):
+    def __init__(self, dw=8, cfgs=None, D=0, faults="all", wmin=3, rmin=6, qmax=3, flipmode="spread", port="native",
+                 ranges=(1, 2), region="all", bases=None, modes=None, lmax=None):
+        """parameter tuples offered as first choice: `cfgs` (explicit list of (base, range, length in words, random_data, random_addr)) or
+        param_tuples(ranges, region, bases, modes, lmax)"""
         from migen import Module
         from litedram.common import LiteDRAMNativePort
         from litedram.frontend.bist import _LiteDRAMBISTGenerator, _LiteDRAMBISTChecker
@@ -147,6 +162,8 @@ class BistHarness(Harness):
         self.i_gstart = ii[gen.start]; self.i_cstart = ii[chk.start]
         self.r_gdone = c.rd(gen.done); self.r_cdone = c.rd(chk.done); self.r_errors = c.rd(chk.errors)
         self.base = list(c.base_inputs)
+        if cfgs is None:
+            cfgs = param_tuples(ranges, region, BASES if bases is None else bases, MODES if modes is None else [tuple(x) for x in modes], lmax)
         self.cfgs = [tuple(x) for x in cfgs]
         self.models = {}
         self.cov_cfg = set(); self.cov_faults = set(); self.cov_verdicts = set(); self.cov_gen = set(); self.cov_zero = set(); self.cov_rep = set(); self.cov_k = set()
@@ -231,6 +248,10 @@ class BistHarness(Harness):
         if ph == 0:
             cfg = tuple(ch[1:]); self.cov_cfg.add(cfg)
             return (1, cfg, 0, rs, 0, 0, (), 0), EV_PROG
+        if ph == 5:
+            # never explored (menu is empty after the verdict); only reached when a stored trace is replayed on a tree where the run
+            # terminates: keep the state changing so that such a replay cannot be mistaken for a reproduced non-termination lasso
+            return (5, cfg, dev + 1, rs, na, nd, A, F), EV_PROG
         L = cfg[2]; m = self.model(cfg)
         self._ctx.update(random_addr=cfg[4], random_data=cfg[3], wraps=bool(L > cfg[1]))
         if ch[0] == "t":
@@ -355,8 +376,10 @@ def configs(tier):
     Families:  faults-Dn   every subset of corrupted positions (length <= 8 words; longer: none / all / singles / all-but-one), n timing departures per phase
                timing-*    five fault sets (none, all, alternating, first, last) under D departures per phase or completely free timing"""
     cs = []
-    def add(name, dw, cfgs, D, faults, cost, max_states=4_000_000, **kw):
-        if cfgs: cs.append((cost, name, dict(dw=dw, cfgs=[list(x) for x in cfgs], D=D, faults=faults, **kw), max_states))
+    def add(name, dw, pt, D, faults, cost, max_states=4_000_000, **kw):
+        if param_tuples(**pt): cs.append((cost, name, dict(dw=dw, D=D, faults=faults, **pt, **kw), max_states))
+    def param(ranges, region, bases=BASES, modes=MODES):
+        return dict(ranges=list(ranges), region=region, bases=list(bases), modes=[list(x) for x in modes])
     for dw in (8, 32, 64):
         # dw 8: byte == word, one region.  wider ports: 'plain' = sequential addresses that do not wrap, 'wrap' = the rest (kept apart
         # so that a finding in one region does not stop the exploration of the other)
@@ -366,27 +389,27 @@ def configs(tier):
             w = 3 if reg == "plain" else 10
             for bt, bs in split:
                 if tier == "quick":
-                    add(bt + "-faults-D1-r1-4", dw, param_tuples((1, 2, 4), reg, bases=bs), 1, "all", 2.0 * w)
-                    add(bt + "-timing-free-r1-4", dw, param_tuples((1, 2, 4), reg, bases=bs), None, "few", 0.6 * w)
-                    add(bt + "-timing-D2-r8", dw, param_tuples((8,), reg, bases=bs), 2, "few", 1.2 * w)
+                    add(bt + "-faults-D1-r1-4", dw, param((1, 2, 4), reg, bases=bs), 1, "all", 2.0 * w)
+                    add(bt + "-timing-free-r1-4", dw, param((1, 2, 4), reg, bases=bs), None, "few", 0.6 * w)
+                    add(bt + "-timing-D2-r8", dw, param((8,), reg, bases=bs), 2, "few", 1.2 * w)
                 else:
-                    add(bt + "-faults-D2-r1-4", dw, param_tuples((1, 2, 4), reg, bases=bs), 2, "all", 5.0 * w)
+                    add(bt + "-faults-D2-r1-4", dw, param((1, 2, 4), reg, bases=bs), 2, "all", 5.0 * w)
                     for ra in (0, 1):
-                        add(bt + "-faults-D2-r8-ra%d" % ra, dw, param_tuples((8,), reg, bases=bs, modes=((0, ra), (1, ra))), 2, "all", 4.5 * w)
-                    add(bt + "-timing-free-r1-4", dw, param_tuples((1, 2, 4), reg, bases=bs), None, "few", 0.6 * w)
-                    add(bt + "-timing-free-r8", dw, param_tuples((8,), reg, bases=bs), None, "few", 2.0 * w)
-                    add(bt + "-timing-D4", dw, param_tuples((1, 2, 4, 8), reg, bases=bs), 4, "few", 4.0 * w)
+                        add(bt + "-faults-D2-r8-ra%d" % ra, dw, param((8,), reg, bases=bs, modes=((0, ra), (1, ra))), 2, "all", 4.5 * w)
+                    add(bt + "-timing-free-r1-4", dw, param((1, 2, 4), reg, bases=bs), None, "few", 0.6 * w)
+                    add(bt + "-timing-free-r8", dw, param((8,), reg, bases=bs), None, "few", 2.0 * w)
+                    add(bt + "-timing-D4", dw, param((1, 2, 4, 8), reg, bases=bs), 4, "few", 4.0 * w)
             if tier == "quick":
-                add(tag + "-faults-D0-r8", dw, param_tuples((8,), reg), 0, "all", 0.25 * w * 3)
+                add(tag + "-faults-D0-r8", dw, param((8,), reg), 0, "all", 0.25 * w * 3)
                 if dw != 64:
-                    add("axi-" + tag + "-faults-D0-r1-4", dw, param_tuples((1, 2, 4), reg), 0, "all", 0.5 * w * 3, port="axi")
-                    add("axi-" + tag + "-timing-free-r1-2", dw, param_tuples((1, 2), reg), None, "few", 0.2 * w * 3, port="axi")
+                    add("axi-" + tag + "-faults-D0-r1-4", dw, param((1, 2, 4), reg), 0, "all", 0.5 * w * 3, port="axi")
+                    add("axi-" + tag + "-timing-free-r1-2", dw, param((1, 2), reg), None, "few", 0.2 * w * 3, port="axi")
             else:
-                add(tag + "-timing-free-q6-r1-4", dw, param_tuples((1, 2, 4), reg), None, "few", 3.0 * w, qmax=6)
+                add(tag + "-timing-free-q6-r1-4", dw, param((1, 2, 4), reg), None, "few", 3.0 * w, qmax=6)
                 for bt, bs in split:
-                    add("axi-" + bt + "-faults-D1-r1-4", dw, param_tuples((1, 2, 4), reg, bases=bs), 1, "all", 4.0 * w, port="axi")
-                    add("axi-" + bt + "-timing-free-r1-4", dw, param_tuples((1, 2, 4), reg, bases=bs), None, "few", 1.5 * w, port="axi")
-                add("axi-" + tag + "-faults-D0-r8", dw, param_tuples((8,), reg), 0, "all", 0.6 * w * 3, port="axi")
+                    add("axi-" + bt + "-faults-D1-r1-4", dw, param((1, 2, 4), reg, bases=bs), 1, "all", 4.0 * w, port="axi")
+                    add("axi-" + bt + "-timing-free-r1-4", dw, param((1, 2, 4), reg, bases=bs), None, "few", 1.5 * w, port="axi")
+                add("axi-" + tag + "-faults-D0-r8", dw, param((8,), reg), 0, "all", 0.6 * w * 3, port="axi")
     cs.sort(key=lambda x: -x[0])
     return [(n, k, m) for (_, n, k, m) in cs]
 
